@@ -383,9 +383,16 @@ pub fn should_use_sparse_threshold(vector: &[f32], threshold: f32) -> bool {
 }
 
 /// Heuristic: does this vector look like an ID list?
+///
+/// The ID-list encoding stores every component as a `u64`, so whatever the field is called it
+/// is only chosen for vectors it reproduces exactly: non-negative whole numbers below 2^64.
 fn looks_like_id_list(vector: &[f32], field_name: &str) -> bool {
+    // 2^64: the first whole number `f as u64` cannot hold (the cast saturates from here on).
+    const U64_RANGE: f32 = 18_446_744_073_709_551_616.0;
+    let is_id = |v: f32| v >= 0.0 && v < U64_RANGE && v.fract() == 0.0;
+
     if field_name == "ids" || field_name.ends_with("_ids") {
-        return true;
+        return vector.iter().all(|&v| is_id(v));
     }
 
     if vector.len() < 2 {
@@ -393,13 +400,13 @@ fn looks_like_id_list(vector: &[f32], field_name: &str) -> bool {
     }
 
     // Check first value
-    if vector[0] < 0.0 || vector[0].fract() != 0.0 {
+    if !is_id(vector[0]) {
         return false;
     }
 
     let mut prev = vector[0];
     for &v in &vector[1..] {
-        if v < prev || v < 0.0 || v.fract() != 0.0 {
+        if v < prev || !is_id(v) {
             return false;
         }
         prev = v;
